@@ -48,6 +48,12 @@ pub struct LongScript {
     pub done: bool,
     pub finished: bool,
     pub single_branch: bool,
+    /// 0 = two racing branches (C03 depth bound); 1 = long header-rule chain (C11)
+    pub mode: u8,
+    /// C11 mode: dt plan per 2016-block period (0 fast, 1 normal, 2 slow, 3 mixed) and length
+    pub period_plan: Vec<u8>,
+    pub target_height: u32,
+    pub candidates_left: u32,
 }
 
 pub fn profile_networks(profile: &str) -> &'static [&'static str] {
@@ -115,7 +121,9 @@ pub fn draw_config(profile: &str, seed: u64, tier_thorough: bool) -> (RunConfig,
         }
         "C09" => {
             sw.upgrades = true;
-            sw.weights = [28, 40, 28, 0, 3, 14, 2];
+            sw.weights = [28, 40, 28, 8, 3, 14, 2];
+            sw.client_mix = [2, 3, 0, 10, 0, 0, 0];
+            sw.tx_density = sw.tx_density.max(2);
         }
         "C13" => {
             sw.weights = [25, 50, 25, 0, 4, 4, 2];
@@ -131,7 +139,13 @@ pub fn draw_config(profile: &str, seed: u64, tier_thorough: bool) -> (RunConfig,
             sw.weights = [30, 40, 28, 14, 3, 4, 2];
             sw.client_mix = [0, 0, 0, 10, 0, 0, 0];
             sw.tx_density = sw.tx_density.max(3);
-            sw.many_txs = tier_thorough && rng.chance(1, 6);
+            sw.many_txs = rng.chance(1, if tier_thorough { 12 } else { 120 });
+            if sw.many_txs {
+                // keep > 10,000 transactions unstable: the window is cut inside a block
+                sw.weights = [40, 40, 28, 10, 0, 2, 1];
+                sw.fork_propensity = 1;
+                sw.max_events = sw.max_events.max(90);
+            }
         }
         "C16" => {
             sw.weights = [15, 25, 15, 40, 8, 2, 2];
@@ -147,7 +161,10 @@ pub fn draw_config(profile: &str, seed: u64, tier_thorough: bool) -> (RunConfig,
     }
     let mut threshold = threshold;
     let mut network = network;
-    if profile == "C03" && rng.chance(if tier_thorough { 1 } else { 1 }, if tier_thorough { 12 } else { 60 }) {
+    if sw.many_txs {
+        threshold = *rng.pick(&[30u32, 144]);
+    }
+    if profile == "C03" && rng.chance(1, if tier_thorough { 8 } else { 25 }) {
         // long two-branch history reaching the testnet/regtest depth bound
         sw.long_chain = true;
         sw.max_events = 6000;
@@ -162,6 +179,25 @@ pub fn draw_config(profile: &str, seed: u64, tier_thorough: bool) -> (RunConfig,
             max_lead_in_race: *rng.pick(&[100u32, 300, 460, 480]),
             pull_ahead_to: 640,
             single_branch: rng.chance(1, 6),
+            ..Default::default()
+        });
+    }
+    if profile == "C11" && rng.chance(1, if tier_thorough { 4 } else { 10 }) {
+        // long header-rule chain crossing one or two retargets
+        sw.long_chain = true;
+        sw.max_events = 40_000;
+        sw.tx_density = 0;
+        sw.upgrades = false;
+        sw.fault_cfg = false;
+        network = rng.pick(&["testnet", "testnet", "mainnet"]).to_string();
+        threshold = *rng.pick(&[2u32, 3]);
+        let plans: [[u8; 3]; 8] = [[0, 2, 1], [0, 2, 3], [0, 3, 3], [1, 0, 2], [2, 0, 3], [0, 0, 2], [3, 1, 0], [0, 1, 3]];
+        let plan = rng.pick(&plans).to_vec();
+        sw.script = Some(LongScript {
+            mode: 1,
+            period_plan: plan,
+            target_height: *rng.pick(&[2060u32, 2060, 4070, 4070, 4070]),
+            candidates_left: 70,
             ..Default::default()
         });
     }
@@ -185,6 +221,7 @@ pub fn draw_config(profile: &str, seed: u64, tier_thorough: bool) -> (RunConfig,
         sync_flag,
         fees,
         quiesce: true,
+        watchdog_target: 0,
     };
     (cfg, sw)
 }
@@ -380,8 +417,8 @@ fn draw_mine(sw: &Swarm, w: &World, rng: &mut Rng) -> Event {
             n: *rng.pick(&[5u16, 40, 260, 300, 1100]),
             to: rng.below(6) as u8,
         }
-    } else if sw.many_txs && rng.chance(1, 8) {
-        Special::ManyTxs { n: *rng.pick(&[200u16, 3000, 6000]) }
+    } else if sw.many_txs && rng.chance(1, 3) {
+        Special::ManyTxs { n: *rng.pick(&[200u16, 2500, 3300, 4100, 6000]) }
     } else {
         Special::None
     };
@@ -403,7 +440,114 @@ fn draw_mine(sw: &Swarm, w: &World, rng: &mut Rng) -> Event {
     })
 }
 
+fn sync_round(q: &mut std::collections::VecDeque<Event>, reply: ReplySpec) {
+    q.push_back(Event::Heartbeat { pause_at: 0 });
+    q.push_back(Event::Deliver { task: 0, reply, pause_at: 0 });
+    q.push_back(Event::Heartbeat { pause_at: 0 });
+    q.push_back(Event::Heartbeat { pause_at: 0 });
+}
+
+/// C11: a long single chain whose block spacing follows a per-period plan, with mutated
+/// candidate headers offered (as announced header, then as block) at interesting heights.
+fn header_chain_next(sw: &mut Swarm, w: &World, rng: &mut Rng) -> Event {
+    let sc = sw.script.as_mut().unwrap();
+    if let Some(ev) = sc.queue.pop_front() {
+        return match ev {
+            Event::Deliver { .. } if w.tasks.is_empty() => Event::Heartbeat { pause_at: 0 },
+            other => other,
+        };
+    }
+    if sc.done {
+        sc.finished = true;
+        return Event::Heartbeat { pause_at: 0 };
+    }
+    let mut next_id = w.net.blocks.keys().max().copied().unwrap_or(0) + 1;
+    // continue from the canister's best tip (valid candidates become part of the chain)
+    sc.a_tip = w.best_tip();
+    sc.a_len = w.net.blocks[&sc.a_tip].height;
+    let height = sc.a_len; // height of the current tip
+    if height >= sc.target_height {
+        sc.done = true;
+        return Event::Heartbeat { pause_at: 0 };
+    }
+    // chunk: up to the next interesting height
+    let interesting: [u32; 12] = [3, 9, 2014, 2015, 2016, 2017, 2030, 4031, 4032, 4033, 4040, 4050];
+    let next_stop = interesting.iter().copied().find(|h| *h > height).unwrap_or(sc.target_height).min(sc.target_height);
+    let k = (next_stop - height).min(rng.range(20, 110) as u32).max(1);
+    let honest = ReplySpec::Honest { max_blocks: 120, max_next: 0, page: 2_000_000, lag: 0, include_invalid: false };
+    let mut parent = sc.a_tip;
+    for i in 0..k {
+        let h = height + i + 1;
+        let plan = sc.period_plan[((h / 2016) as usize).min(sc.period_plan.len() - 1)];
+        let dt = match plan {
+            0 => rng.range(60, 200) as u32,
+            1 => rng.range(500, 700) as u32,
+            2 => rng.range(2400, 2700) as u32,
+            _ => *rng.pick(&[1300u32, 1300, 1300, 1300, 1201, 1200, 1199, 600, 300, 2500]),
+        };
+        sc.queue.push_back(Event::Mine(MineSpec {
+            id: next_id,
+            parent,
+            seed: rng.next_u64(),
+            ntx: 0,
+            dt,
+            difficulty: 0,
+            special: Special::BareCoinbase,
+            mutation: Mutation::None,
+            remine: 0,
+        }));
+        parent = next_id;
+        next_id += 1;
+    }
+    sc.a_tip = parent;
+    sc.a_len += k;
+    for _ in 0..(k / 100 + 2) {
+        sync_round(&mut sc.queue, honest.clone());
+    }
+    // candidates on top of the new tip
+    let at_interesting = interesting.contains(&sc.a_len) || interesting.contains(&(sc.a_len + 1));
+    if sc.candidates_left > 0 && (at_interesting || rng.chance(1, 4)) {
+        let n_c = if at_interesting { 6 } else { rng.range(1, 3) as u32 };
+        for _ in 0..n_c.min(sc.candidates_left) {
+            sc.candidates_left -= 1;
+            let mutation = match rng.below(14) {
+                0 => Mutation::TimeMtp(-1),
+                1 | 2 => Mutation::TimeMtp(0),
+                3 => Mutation::TimeMtp(1),
+                4 => Mutation::TimeFuture(1),
+                5 => Mutation::TimeFuture(0),
+                6 => Mutation::WrongBits,
+                7 => Mutation::BitsAboveMax,
+                8 | 9 => Mutation::ParentBits,
+                10 | 11 => Mutation::LimitBits,
+                _ => Mutation::None,
+            };
+            let dt = *rng.pick(&[1u32, 600, 1199, 1200, 1201, 1300, 2500]);
+            let cid = next_id;
+            next_id += 1;
+            sc.queue.push_back(Event::Mine(MineSpec {
+                id: cid,
+                parent: sc.a_tip,
+                seed: rng.next_u64(),
+                ntx: 0,
+                dt,
+                difficulty: 0,
+                special: Special::None,
+                mutation,
+                remine: 0,
+            }));
+            // first as an announced header, then as a block
+            sync_round(&mut sc.queue, ReplySpec::Explicit { blocks: vec![], next: vec![HeaderOffer::Header(cid)] });
+            sync_round(&mut sc.queue, ReplySpec::Explicit { blocks: vec![BlockOffer::Block(cid)], next: vec![] });
+        }
+    }
+    sc.queue.pop_front().unwrap()
+}
+
 fn long_next(sw: &mut Swarm, w: &World, rng: &mut Rng) -> Event {
+    if sw.script.as_ref().unwrap().mode == 1 {
+        return header_chain_next(sw, w, rng);
+    }
     let sc = sw.script.as_mut().unwrap();
     if let Some(ev) = sc.queue.pop_front() {
         // never start a heartbeat while a reply is outstanding; never deliver without a task
@@ -446,7 +590,7 @@ fn long_next(sw: &mut Swarm, w: &World, rng: &mut Rng) -> Event {
             ntx: 0,
             dt: 1300,
             difficulty: 0,
-            special: Special::None,
+            special: Special::BareCoinbase,
             mutation: Mutation::None,
             remine: 0,
         }));
